@@ -229,3 +229,57 @@ def finish_weighted(ctx, cuqi, items, lines, outs):
             if spec["reg"]:
                 continue
             base.check_exactness(ctx, tie_key + ":params", None, desc, spec, post, calls, model, force=not same)
+
+
+# ----------------------------------------------------------------------------- scipy-sparse valued callables (third pass)
+def prepare_sparse(ctx, cuqi, thorough):
+    """legacy Conjugate with `cov = lambda s: C / s`, `C` a scipy sparse SPD matrix (sparse branch of get_sqrtprec_from_cov:
+    `spa.linalg.inv`, `sparse_cholesky`; no cholmod => `logdet = None`, no density: tie only).  Model: `bigQuad` (certificate-checked
+    L D L^T solve), driver op `gausswb … sparse`."""
+    import scipy.sparse as sp
+    rng = ctx.rng
+    cases, lines = [], []
+    for _ in range(40 if thorough else 4):
+        n = rng.choice([3, 4, 5, 6, 8])
+        off = rng.choice([-0.5, 0.25, -0.25, 0.5])
+        diag = [rng.choice([2.0, 3.0, 2.5]) for _ in range(n)]
+        C = np.diag(diag) + np.diag([off] * (n - 1), 1) + np.diag([off] * (n - 1), -1)
+        mean = [dy(rng, -2, 2, 4) for _ in range(n)]
+        b = [dy(rng, -4, 4, 4) for _ in range(n)]
+        c = {"n": n, "C": C, "mean": mean, "b": b, "alpha": dy(rng, 1, 12, 4), "beta": dy(rng, 1, 12, 4), "fmt": rng.choice(["csc", "csr"])}
+        cases.append(c)
+        lines.append(f"gausswb cov {n} sparse {qm(C.tolist())} {qv(mean)} {qv(b)} {q(c['alpha'])} {q(c['beta'])}")
+    return lines, cases
+
+
+def finish_sparse(ctx, cuqi, cases, lines, outs):
+    import harness.props.c10 as base
+    import scipy.sparse as sp
+    D = cuqi.distribution
+    hist = ctx.extra_cov.setdefault("sparse_valued_cov", {})
+    for c, out in zip(cases, outs):
+        desc = {k: c[k] for k in ("n", "alpha", "beta", "fmt", "mean", "b")}
+        desc["C_diag_offdiag"] = [c["C"][0][0], c["C"][0][1]]
+        ctx.case("weighted-sparse-leg", desc)
+        key = "tie:leg:GaussianW:cov:sparse"
+        if out == "bad-op":
+            raise RuntimeError("driver rejected a sparse line")
+        Cs = sp.csc_matrix(c["C"]) if c["fmt"] == "csc" else sp.csr_matrix(c["C"])
+        try:
+            with base.Capture(cuqi) as cap, quiet():
+                y = D.Gaussian(np.array(c["mean"]), cov=lambda s: Cs / s, name="y")
+                post = D.Posterior(y.to_likelihood(np.array(c["b"])), D.Gamma(c["alpha"], c["beta"], name="s"))
+                cuqi.sampler.Conjugate(post).step()
+            calls, err = cap.calls, None
+        except Exception as e:
+            calls, err = [], f"{type(e).__name__}"
+        hist[err or "sampled"] = hist.get(err or "sampled", 0) + 1
+        if out.startswith("err") != bool(err):
+            ctx.disagree(key + ":refusal", desc, out[:40], err or "sampled", "sparse valued covariance: refusal differs from the model")
+            continue
+        if err:
+            continue
+        toks = out.split()
+        shape, rate = float(calls[0]["shape"][0]), 1.0 / float(calls[0]["scale"][0])
+        if not (close(shape, pq(toks[0]), base.SHAPE_TOL) and close(rate, pq(toks[1]), FULL_TOL)):
+            ctx.disagree(key + ":params", desc, [toks[0], toks[1]], [shape, rate], "Gamma drawn from differs from the model (sparse valued covariance)")
